@@ -87,10 +87,21 @@ func (g *gen) exit(c ctx) r.Val {
 		if c.nvar != "" {
 			v = r.L(sym("+"), sym(c.nvar), int64(100+i)) // differs between the activations of the recursive function
 		}
+		// one exit in four yields nil: written with a nil value, with an expression that is nil, or without a value
+		// form (an exit whose value is nil must leave the form like any other)
+		valued := []r.Val{g.mv(v)}
+		switch g.pick("exitnil", 12) {
+		case 0:
+			valued = []r.Val{nil}
+		case 1:
+			valued = []r.Val{g.mv(nil)}
+		case 2:
+			valued = nil
+		}
 		if b == "" {
-			cands = append(cands, cand{form: r.L(sym("return"), g.mv(v)), kind: "return"})
+			cands = append(cands, cand{form: r.L(append([]r.Val{sym("return")}, valued...)...), kind: "return"})
 		} else {
-			cands = append(cands, cand{form: r.L(sym("return-from"), sym(b), g.mv(v)), kind: "return-from"})
+			cands = append(cands, cand{form: r.L(append([]r.Val{sym("return-from"), sym(b)}, valued...)...), kind: "return-from"})
 		}
 	}
 	if !(c.inFn && h.ExclOn("go-out-of-lambda")) {
